@@ -274,6 +274,14 @@ def exec_AR(t, ia=False):
                 return w
             x = as2d(a, lay, sx, nx, fx, rounding=r, overflow=o, op_sizing=pol, op_method=meth)
             y = as2d(b, 1 + (lay + b[-1]) % 3, sy, ny, fy, rounding=r2, overflow=o2)
+        if len(a) == 1 and len(b) == 1 and max(nx, ny) <= 60 and hist_of(nx, fx, ny, a[0] % 53, b[0] % 47) % 4 == 1:
+            # (content-determined) the two codes as one-element pieces of longer arrays (x[1:2], a row of one element): arrays of
+            # one element are arrays — the result is elementwise with the broadcast shape of the operands, here (1,) or (1, 1)
+            xa = Fxp(np.array([a[0]] * 3, dtype=np.int64), sx, nx, fx, raw=True, rounding=r, overflow=o, op_sizing=pol, op_method=meth)
+            ya = Fxp(np.array([b[0]] * 3, dtype=np.int64), sy, ny, fy, raw=True, rounding=r2, overflow=o2)
+            x = xa[1:2] if (a[0] + nx) % 2 else xa[None, 1:2]
+            y = ya[0:1]
+            assert codes_of(x) == a and codes_of(y) == b
         # content-determined: the operation runs while a class-level template of another format and the opposite modes is active
         # (the documented `Fxp.template` pattern); a result is sized by the operator and configured by its first operand all the same
         tmpl = hist_of(nx, fy, len(a), a[0] % 83, b[0] % 79) % 4 == 0
@@ -292,6 +300,8 @@ def exec_AR(t, ia=False):
                 raise ValueError(route)
         finally:
             Fxp.template = None
+        if isinstance(z, Fxp) and np.shape(z.val) != np.broadcast_shapes(np.shape(x.val), np.shape(y.val)):
+            return ['SHAPE:%s' % (np.shape(z.val),)]
         disturb(x, y)
     except Exception as e:
         return [exc_token(e)]
@@ -382,6 +392,20 @@ def exec_AC(t):
     return observe(z)
 
 
+def mk_born(codes, signed, n, f, **cfg):
+    """like mk; (content-determined) an array operand of at most 24 bits is born from single-precision data that holds its values
+    exactly: what the object computes later does not depend on the NumPy type it was created from"""
+    if len(codes) > 1 and n <= 24 and -20 <= f <= 40 and (n + f + codes[0] + len(codes)) % 3 == 0:
+        from fractions import Fraction
+        vals = [Fraction(c) / Fraction(2) ** f for c in codes]
+        arr = np.array([float(v) for v in vals], dtype=np.float32)
+        if [Fraction(float(v)) for v in arr] == vals:
+            x = Fxp(arr, signed, n, f, **cfg)
+            if codes_of(x) == list(codes) and not any(x.status[k] for k in ('overflow', 'underflow', 'inaccuracy')):
+                return x
+    return mk(codes, signed, n, f, **cfg)
+
+
 def exec_DV(t):
     op, meth, route = t[0:3]
     sx, nx, fx = parse_fmt(t, 3)
@@ -391,8 +415,8 @@ def exec_DV(t):
     b = [int(c) for c in parse_list(t[12])]
     r2, o2 = other_mode(r, o)
     try:
-        x = mk(a, sx, nx, fx, rounding=r, overflow=o, op_method=meth, dirty_ok=True)
-        y = mk(b, sy, ny, fy, rounding=r2, overflow=o2, op_method='raw' if meth != 'raw' else 'repr', dirty_ok=True)
+        x = mk_born(a, sx, nx, fx, rounding=r, overflow=o, op_method=meth)
+        y = mk_born(b, sy, ny, fy, rounding=r2, overflow=o2, op_method='raw' if meth != 'raw' else 'repr')
         if route == 'operator':
             z = OPER[op](x, y)
         elif route == 'function':
